@@ -58,7 +58,7 @@ def run_mutant(pid: str, m: dict, base: Path) -> dict:
         err = apply_mutant(tmp, m)
         if err:
             return {"name": m["name"], "ok": False, "why": f"not applicable: {err}", "stale": True}
-        env = dict(os.environ, PDELINT_REPO=str(tmp), PDELINT_NO_EVIDENCE="1", PDELINT_SELFTEST="1", PDELINT_REPLAY_DIR=str(tmp / "replay"))
+        env = dict(os.environ, PDELINT_REPO=str(tmp), PDELINT_NO_EVIDENCE="1", PDELINT_SELFTEST="1", PDELINT_TIER="quick", PDELINT_REPLAY_DIR=str(tmp / "replay"))
         p = subprocess.run(
             [sys.executable, "-m", "pdelint.cli", pid, "--tier", "quick"],
             cwd=str(VERIF),
